@@ -200,6 +200,7 @@ pub fn responder(addr: u8, r: &mut Rng, tsdr_cap: u16) -> SlaveCfg {
         fdl_status_code: if r.chance(1, 4) { *r.pick(&[1u8, 2, 3, 8, 9, 10, 12, 13]) } else { 0 },
         delimiter_payload: false,
         sd2_always: r.chance(1, 6),
+        odd_status: (0, 0),
     }
 }
 
@@ -658,6 +659,7 @@ pub fn dp_world(r: &mut Rng, tier: Tier, o: &DpOpts) -> (WorldCfg, OracleCfg, Ve
             fdl_status_code: 0,
             delimiter_payload: r.chance(1, 5),
             sd2_always: r.chance(1, 6),
+            odd_status: (0, 0),
         };
         if o.mismatch && r.chance(1, 6) {
             match r.below(4) {
@@ -671,6 +673,13 @@ pub fn dp_world(r: &mut Rng, tier: Tier, o: &DpOpts) -> (WorldCfg, OracleCfg, Ve
             0 => sc.power = vec![],                                            // never there
             1 => sc.power = vec![(r.range(1, 400) * tslot_us, true)],          // appears later
             _ => {}
+        }
+        // (a generator of its own: the other choices of a seed stay what they were)
+        {
+            let mut ro = Rng::new(u64::from(a) ^ (u64::from(ident) << 8) ^ 0x0DD5_7A75);
+            if ro.chance(1, 4) {
+                sc.odd_status = (*ro.pick(&[0x80u8, 0x20, 0x01, 0xA1, 0x00]), *ro.pick(&[0x40u8, 0x80, 0xC0, 0x00]));
+            }
         }
         let turn = (u64::from(retry) + 1) * (11 * (in_len as u64 + out_len as u64 + up_len as u64 + cfg_len as u64 + 40) + u64::from(slot_bits) + 100);
         cycle_bits += turn;
@@ -1090,6 +1099,7 @@ pub fn adv_world(r: &mut Rng, tier: Tier, o: &AdvOpts) -> (WorldCfg, OracleCfg, 
                                 fdl_status_code: 0,
                                 delimiter_payload: r.chance(1, 5),
                                 sd2_always: r.chance(1, 6),
+                                odd_status: (0, 0),
                             });
                         }
                     }
@@ -1541,7 +1551,32 @@ pub fn scan_world(r: &mut Rng, tier: Tier) -> (WorldCfg, OracleCfg, Vec<Fault>) 
     if let Some(a) = second {
         stations.push(mk(r, a, vec![]));
     }
+    let mut slaves = slaves;
     let _ = tier;
+    // Every fifth world (slot time >= 400 bit, up to 1.5 Mbit/s): the scanner's receiver hands
+    // bytes over in blocks (USB adapters), with a pause between two blocks that is longer than
+    // the 33 bit idle time plus a poll period - a reply usually arrives in two pieces.  The
+    // responders answer early enough for the first block to be there within the slot time.  (A
+    // generator of its own: the other scenarios of a seed stay what they were.)
+    {
+        let mut rc = Rng::new(t_changes_end ^ (u64::from(ts) << 40) ^ (u64::from(slot_bits) << 8) ^ 0xC4A2_B10C);
+        if rc.chance(1, 5) && slot_bits >= 400 && bit_us(baud, 8) >= 4 {
+            let c = bit_us(baud, rc.range(u64::from(slot_bits) / 10, u64::from(slot_bits) / 8)).max(1);
+            let idle = bit_us(baud, 34).max(1);
+            if c > idle + 3 {
+                let p = ((c - idle) / 3).max(1).min(max_poll_period_us(baud, slot_bits, 2 * c));
+                let st = &mut stations[0];
+                st.rx_chunk_us = c;
+                st.p_max_us = st.p_max_us.min(p).max(1);
+                st.p_min_us = st.p_min_us.min(st.p_max_us).max(1);
+                let cap = max_tsdr_cap(baud, slot_bits, c + 2 * st.p_max_us);
+                for sl in slaves.iter_mut() {
+                    sl.max_tsdr = sl.max_tsdr.min(cap).max(11);
+                    sl.min_tsdr = sl.min_tsdr.min(sl.max_tsdr);
+                }
+            }
+        }
+    }
     let end_us = t_changes_end + 6 * sweep_us + 100 * tslot_us;
     let world = WorldCfg {
         baud,
